@@ -17,7 +17,9 @@
 
     Faithful to the code as it is.  [fixed_F1 = false] is the pinned
     grpcv3.RequestContext (finding C13-F1), [fixed_F1 = true] the candidate
-    repair fixes/C13-F1.diff (cache the view as the HTTP context does).
+    repair fixes/C13-F1.diff (cache the view as the HTTP context does);
+    [fixed_F4] likewise for finding C13-F4 / fixes/C13-F4.diff (decoded Path and
+    RawPath in the Envoy context).
 
     A *logical request* [lreq] is what the property quantifies over; [mk_http]
     / [mk_envoy] say what each entry point receives for it (net/http's parser;
@@ -173,10 +175,14 @@ Definition build_http (L : lreq) : rview :=
      rv_path := GoUrl.unescape_or_empty (v_rawpath v); rv_rawpath := v_rawpath v;
      rv_query := v_query v; rv_caps := None; rv_ips := v_ips v |}.
 
-(** grpcv3.NewRequestContext + Request() *)
-Definition build_envoy (E : ereq) : rview :=
+(** grpcv3.NewRequestContext + Request().  [fixed_F4 = false]: the pinned code puts the path as received
+    (escaped) into URL.Path and leaves RawPath empty (finding C13-F4); [fixed_F4 = true]: the candidate
+    repair fixes/C13-F4.diff (Path = PathUnescape(path), RawPath = path, as extractURL does for HTTP). *)
+Definition build_envoy (fixed_F4 : bool) (E : ereq) : rview :=
   {| rv_method := e_method E; rv_scheme := e_scheme E; rv_host := e_host E;
-     rv_path := e_path E; rv_rawpath := ""; rv_query := e_query E; rv_caps := None; rv_ips := e_xff E |}.
+     rv_path := if fixed_F4 then GoUrl.unescape_or_empty (e_path E) else e_path E;
+     rv_rawpath := if fixed_F4 then e_path E else "";
+     rv_query := e_query E; rv_caps := None; rv_ips := e_xff E |}.
 
 (** url.URL.String() for a URL with scheme and host (Opaque, User, Fragment empty; the host needs no escaping) *)
 Definition url_string (v : rview) : string :=
@@ -461,8 +467,8 @@ Section Oracles.
     end.
 
   Definition exec_http (L : lreq) : outcome := execute true (build_http L) (acc_http L).
-  Definition exec_envoy (fixed_F1 : bool) (L : lreq) : outcome :=
-    execute fixed_F1 (build_envoy (mk_envoy L)) (acc_envoy (mk_envoy L)).
+  Definition exec_envoy (fixed_F1 fixed_F4 : bool) (L : lreq) : outcome :=
+    execute fixed_F1 (build_envoy fixed_F4 (mk_envoy L)) (acc_envoy (mk_envoy L)).
 
   (* ---------------------------------------------------------------- Finalize: the hand-over to the upstream side *)
 
@@ -506,7 +512,8 @@ Section Oracles.
 
   Definition serve_decision (L : lreq) : served := serve_with finalize_decision (exec_http L).
   Definition serve_proxy (L : lreq) : served := serve_with finalize_proxy (exec_http L).
-  Definition serve_envoy (fixed_F1 : bool) (L : lreq) : served := serve_with finalize_envoy (exec_envoy fixed_F1 L).
+  Definition serve_envoy (fixed_F1 fixed_F4 : bool) (L : lreq) : served :=
+    serve_with finalize_envoy (exec_envoy fixed_F1 fixed_F4 L).
 End Oracles.
 
 (* ------------------------------------------------------------------ the mechanisms of the correspondence harness as programs *)
